@@ -23,6 +23,8 @@
 (*                         (FALSE: iff #in-sync shards < MinShard)            *)
 (*   TailNeedsEmpty        an expired idle tail shard is removed only if its  *)
 (*                         planned set is empty                               *)
+(*   TieBreakByOrder       of two equally loaded shards scraping the same target  *)
+(*                         in the same state, the later one drops its copy       *)
 (*   TooBigFirst           relief stops at a too big target before looking at  *)
 (*                         whether the target is a candidate for moving        *)
 (* The pinned tree was (0, FALSE, FALSE, FALSE, FALSE, FALSE); the repaired    *)
@@ -30,7 +32,7 @@
 (***************************************************************************)
 EXTENDS Integers, Sequences, FiniteSets, TLC, SequencesExt
 
-CONSTANTS MinWait, HeadReliefChecksProc, TooBigUsesTotal, EarlyByShardCount, TailNeedsEmpty, TooBigFirst,
+CONSTANTS MinWait, HeadReliefChecksProc, TooBigUsesTotal, EarlyByShardCount, TailNeedsEmpty, TooBigFirst, TieBreakByOrder,
           InputSet            \* set of input records explored by this run
 
 VARIABLES in,        \* the input record (constant during a behaviour)
@@ -153,7 +155,9 @@ GcRemoves(p, s, t) ==   \* does shard s drop t, given current planned sets p
             \* the inner loop breaks at the first `other' that triggers a rule
             hit(o) == \/ p[s][t].state = "in_transfer" /\ p[o][t].state = ""
                       \/ /\ p[s][t].state = p[o][t].state
-                         /\ IF MaxHead # 0 THEN ld[o].head < ld[s].head ELSE ld[o].proc < ld[s].proc
+                         /\ LET lo == IF MaxHead # 0 THEN ld[o].head ELSE ld[o].proc
+                                ls == IF MaxHead # 0 THEN ld[s].head ELSE ld[s].proc
+                            IN lo < ls \/ (TieBreakByOrder /\ lo = ls /\ o < s)
         IN \E o \in others : hit(o)
 
 RECURSIVE GcShard(_, _, _)
